@@ -94,12 +94,18 @@ class _Runner(_Processor):
     ) -> None:
         async for key, payload, params in consumer:
             actor = actors[key.topic]
-            if self._limiter.locked():
-                await consumer.pause()
-                await self._limiter.acquire()
-                await consumer.unpause()
-            else:
-                await self._limiter.acquire()
+            try:
+                if self._limiter.locked():
+                    await consumer.pause()
+                    await self._limiter.acquire()
+                    await consumer.unpause()
+                else:
+                    await self._limiter.acquire()
+            except asyncio.CancelledError:
+                # stopped while waiting for a free slot: the message was taken from the consumer,
+                # but will never be processed - give it back instead of leaving it in flight
+                await self._conn.message_broker.reject(key)
+                raise
             if (
                 self.max_tasks
                 - self._tasks_processed
